@@ -1002,7 +1002,8 @@ func runC19(c *Ctx) error {
 		(<-procRes)()
 	}
 	c19CheckTiming(c)
-	return nil
+	// wire cases (c19wire.go): one real party among scripted raw-TCP peers
+	return c19Wire(c)
 }
 
 func c19Report(c *Ctx, cfg c19Cfg, res []c19Party) {
